@@ -352,7 +352,12 @@ spif_str_dup(spif_str_t self)
     ASSERT_RVAL(!SPIF_STR_ISNULL(self), (spif_str_t) NULL);
     tmp = SPIF_ALLOC(str);
     memcpy(tmp, self, SPIF_SIZEOF_TYPE(str));
-    tmp->s = (spif_charptr_t) STRDUP((const char *) SPIF_STR_STR(self));
+    if (self->size) {
+        tmp->s = (spif_charptr_t) MALLOC(self->size);
+        memcpy(tmp->s, self->s, self->len + 1);
+    } else {
+        tmp->s = (spif_charptr_t) NULL;
+    }
     tmp->len = self->len;
     tmp->size = self->size;
     return tmp;
